@@ -145,6 +145,8 @@ def make_harness(n, cfgname, via, segs=None):
             uri = SymStr(items)
         lk = LK.TemplateLookup(cfg["dirs"], module_directory=cfg["moddir"], filesystem_checks=False)
         rel = None
+        if via == "has_template":
+            return dict(uri=uri, has=lk.has_template(uri), ops=list(OPS), rel=None, lk=lk, t=None)
         if via == "direct":
             t = lk.get_template(uri)
         else:
@@ -180,6 +182,35 @@ def make_on_path(cfgname, via):
         acc.tags["returned"] += 1
         uri = r["uri"]
         w = uri.concretize(m)
+        if via == "has_template":
+            # (every path names a readable file here) True is only right when the URI, taken relative to some configured
+            # directory, resolves inside that directory
+            acc.counts["has_template %s" % r["has"]] += 1
+            if r["has"] is True:
+                items = values._items(uri)
+                k = 0
+                while k < len(items) and (values.ch_eq(items[k], "/") or values.ch_eq(items[k], "\\")):
+                    k += 1
+                rest = [("/" if values.ch_eq(c, "\\") else c) for c in items[k:]]
+                alts = []
+                for root in roots:
+                    res = env.ref_resolve(list(root + "/") + rest)
+                    alts.append(segs_under(res, root))
+                acc.vcs += 1
+                st, mod = p.vc(z3.Or(alts))
+                if st == "fails":
+                    acc.candidate(kind="escape-has_template", input=dict(uri=uri.concretize(mod), cfg=cfgname, via=via, rel=None),
+                                  detail="has_template answered True for a URI that resolves outside the configured directories")
+                elif st == "unknown":
+                    acc.vcs_unknown += 1
+            elif r["has"] is not False:
+                acc.candidate(kind="escape-has_template", input=dict(uri=w, cfg=cfgname, via=via, rel=None), detail="has_template returned %r" % (r["has"],))
+            real = realproc.call("has_template_probe", w, cfg["dirs"], cfg["moddir"], ancestors(cfg["dirs"]))
+            acc.replayed += 1
+            if real != r["has"]:
+                raise core.EngineError("engine/real-code disagreement for has_template(%r): real=%r mine=%r" % (w, real, r["has"]))
+            acc.sample(dict(uri=w, via=via, has_template=r["has"]))
+            return
         fn = r["t"].filename
         checks = [("filename", fn, roots)]
         for op in r["ops"]:
@@ -219,8 +250,46 @@ def make_on_path(cfgname, via):
     return on_path_wrap
 
 
+# ------------------------------------------------------------------ two lookups in one process serving the same URI
+def h_two(p):
+    cfg = dict(order=[["A", "B"], ["B", "A"], ["A", "B", "A"], ["A", "A", "B", "B"]][p.choose(4, "request_order")],
+               module_directory=["none", "own"][p.choose(2, "module_directory")],
+               mtimes=["same", "A-newer", "B-newer"][p.choose(3, "source_mtimes")], age_modules=bool(p.choose(2, "module_files_aged")),
+               fresh_lookup_per_request=bool(p.choose(2, "fresh_lookup_per_request")))
+    return dict(cfg=cfg)
+
+
+def on_two(p, r, exc, acc):
+    if exc is not None:
+        acc.candidate(kind="harness-exception", input=None, detail=repr(exc)[:200])
+        return
+    res = realproc.call("two_lookups", r["cfg"])
+    acc.replayed += 1
+    acc.tags["returned"] += 1
+    acc.vcs += 1
+    for name, got, want, inside in res:
+        if got != want or not inside:
+            acc.candidate(kind="escape-other-lookups-content", input=dict(two_lookups=r["cfg"]),
+                          detail="lookup %s rendered %r, its own files give %r" % (name, got, want))
+            break
+    acc.sample(dict(r["cfg"], outputs=[x[1] for x in res]))
+
+
 def make_replay(c):
     i = c["input"]
+    if i and "two_lookups" in i:
+        body_ = """
+sys.path.insert(0, "/verif")
+from props.realops import two_lookups
+CASE = __CASE__
+bad = None
+for name, got, want, inside in two_lookups(CASE["two_lookups"]):
+    print("lookup", name, "rendered", repr(got), "- its own files give", repr(want))
+    if got != want or not inside: bad = "a lookup served content that does not come from its own directories"
+print("VIOLATED: " + bad if bad else "HOLDS")
+sys.exit(1 if bad else 0)
+""".replace("__CASE__", repr(i))
+        return (c["kind"], body_, repr(sorted(i["two_lookups"].items(), key=str)))
     cfg = CONFIGS[i["cfg"]]
     body = '''
 import os, tempfile, shutil, posixpath
@@ -271,6 +340,19 @@ try:
     before = set()
     for root, ds, fs in os.walk(base):
         for f in fs: before.add(os.path.join(root, f))
+    if VIA == "has_template":
+        # a decoy next to the configured directory, under the path the URI resolves to
+        for d in dirs:
+            target = posixpath.normpath(posixpath.join(d, URI.replace("\\\\", "/").lstrip("/")))
+            inside_ = any(target == d or target.startswith(d.rstrip("/") + "/") for d in dirs)
+            if not inside_:
+                os.makedirs(posixpath.dirname(target), exist_ok=True)
+                if not os.path.exists(target): open(target, "w").write("SECRET")
+                ans = lk.has_template(URI)
+                print("file outside the directories at", target, "-> has_template(%%r) =" %% URI, ans)
+                if ans:
+                    print("VIOLATED: has_template reveals a file outside the configured directories"); sys.exit(1)
+        print("HOLDS"); sys.exit(0)
     try:
         if VIA == "direct":
             t = lk.get_template(URI)
@@ -362,6 +444,15 @@ def run(check, tier):
         jobs.append(("C09-rel-%d" % n, make_harness(n, "moddir", "relative"), make_on_path("moddir", "relative"),
                      "include/inherit/namespace path (_lookup_template) from callers %r, uri length %d" % (CALLERS, n),
                      dict(uri_chars=n, callers=CALLERS)))
+    for n in range(1, {"quick": 4, "thorough": 6}[tier] + 1):
+        jobs.append(("C09-has-%d" % n, make_harness(n, "one-root", "has_template"), make_on_path("one-root", "has_template"),
+                     "has_template, uri length %d" % n, dict(uri_chars=n, config=CONFIGS["one-root"])))
+    for k in range(2, {"quick": 3, "thorough": 4}[tier] + 1):
+        jobs.append(("C09-has-seg-%d" % k, make_harness(k, "one-root", "has_template", ("a", "..", "tmplx")), make_on_path("one-root", "has_template"),
+                     "has_template, %d segments from ('a', '..', 'tmplx' - a sibling whose name extends the root's) joined by symbolic separators" % k,
+                     dict(segments=k, segment_kinds=("a", "..", "tmplx"))))
+    jobs.append(("C09-two-lookups", h_two, on_two, "two lookups in one process with separate directories and module directories serving one URI",
+                 dict(orders=4, module_directory=["none", "own"], mtimes=3)))
     K = {"quick": 5, "thorough": 6}[tier]
     for k in range(2, K + 1):
         for via in ("direct", "relative"):
@@ -378,7 +469,7 @@ def run(check, tier):
         st, acc = driver.explore(name, time_limit=tl)
         check.section(title, st, acc, bounds, tags_required=("returned",))
         cands.extend(acc.candidates)
-    cands.sort(key=lambda c: (len(c["input"]["uri"]), c["input"]["uri"]))
+    cands.sort(key=lambda c: (len((c["input"] or {}).get("uri", "")), (c["input"] or {}).get("uri", "")))
     check.confirm(cands, make_replay, classify, max_confirm=60)
     driver.close_pool()
     realproc.shutdown()
